@@ -71,6 +71,13 @@ structure EErr where
     no group is in force) and is a `LogValuer` resolving to the trimmed lines (what every other position prints) -/
 def stackAttr (e : EErr) : Attr := .stack stackKey e.trace (.leaf stackKey (logValueText e.trace))
 
+/-- the same value under ANY key (`slog.Any(key, &stackValue{err: se})` for a `StackError` whose `StackTrace(true)` is
+    `trace`): what the driver builds for the attribute word `s <key> <trace>` — the harness hands tracelog a real
+    `*stackValue` over a scripted stack text, so `stackValue.LogValue` is compared with `logValueText` byte for byte -/
+def stackAttrAt (key trace : Bytes) : Attr := .stack key trace (.leaf key (logValueText trace))
+
+theorem stackAttr_eq_at (e : EErr) : stackAttr e = stackAttrAt stackKey e.trace := rfl
+
 /-- `createRecord(level, err)` followed by `r.Add(args...)` / `r.AddAttrs(attrs...)`: for a nil error an empty message
     and no stack attribute; otherwise the error's message and the stack attribute FIRST, then the caller's attributes -/
 def createRecord (level : Int) (now : Bytes) (err : Option EErr) (attrs : List Attr) : Record :=
